@@ -186,3 +186,173 @@ package quickfix
 //@   ensures @toohigh gate(s, msg) && seqok(msg) && fint(msg.Header.FieldMap, 34) > s.store.#T ==> result is targetTooHigh && unbox(result, targetTooHigh).ReceivedTarget == fint(msg.Header.FieldMap, 34) && unbox(result, targetTooHigh).ExpectedTarget == s.store.#T
 //@   ensures @store s.store.#T == old(s.store.#T) && s.store.#S == old(s.store.#S)
 //@   pure
+
+// ---- outbound callbacks: may edit the outbound message but keep it well-formed (assumption about user code) ----
+//@ iface Application.ToAdmin(recv, message, sessionID)
+//@   requires msgsafe(message)
+//@   ensures msgsafe(message)
+//@   modifies message.Header.tags, heap E.quickfix.Tag, message.Header.tagLookup[*], message.Body.tags, message.Body.tagLookup[*], message.Trailer.tags, message.Trailer.tagLookup[*], heap H.quickfix.TagValue.*, fresh E.uint8
+//@ iface Application.ToApp(recv, message, sessionID)
+//@   requires msgsafe(message)
+//@   ensures msgsafe(message)
+//@   modifies message.Header.tags, heap E.quickfix.Tag, message.Header.tagLookup[*], message.Body.tags, message.Body.tagLookup[*], message.Trailer.tags, message.Trailer.tagLookup[*], heap H.quickfix.TagValue.*, fresh E.uint8
+
+// ---- session well-formedness ---------------------------------------------------------------------------------
+//@ spec sessfull(s *session) bool = s != nil && sessionok(s) && (s.messageOut != nil ==> !closed(s.messageOut)) && !closed(s.messageEvent) && s.messageEvent != s.messageOut && stok(s.State)
+
+//@ func (s *session) insertSendingTime [C02,C10]
+//@   requires s != nil && msgsafe(msg)
+//@   ensures @wf msgsafe(msg)
+//@   ensures @set fhas(msg.Header.FieldMap, 52)
+//@   ensures @others forall t Tag :: t != 52 ==> (fhas(msg.Header.FieldMap, t) <==> old(fhas(msg.Header.FieldMap, t))) && msg.Header.tagLookup[t] == old(msg.Header.tagLookup[t])
+//@   modifies msg.Header.tags, msg.Header.tags[*], msg.Header.tagLookup[*], msg.Header.tagLookup[52][0].*, fresh E.uint8, fresh H.quickfix.TagValue.*, fresh E.quickfix.Tag, fresh H.quickfix.FIXUTCTimestamp.*, fresh H.time.Time.*
+
+//@ func optionallySetID [C02,C10]
+//@   requires msgsafe(msg)
+//@   ensures @wf msgsafe(msg)
+//@   ensures @others forall t Tag :: t != field ==> (fhas(msg.Header.FieldMap, t) <==> old(fhas(msg.Header.FieldMap, t))) && msg.Header.tagLookup[t] == old(msg.Header.tagLookup[t])
+//@   modifies msg.Header.tags, msg.Header.tags[*], msg.Header.tagLookup[*], msg.Header.tagLookup[field][0].*, fresh E.uint8, fresh H.quickfix.TagValue.*, fresh E.quickfix.Tag
+
+// two messages do not share their section maps (the reply is always a fresh message)
+//@ spec msgsep(a *Message, b *Message) bool = a.Header.tagLookup != b.Header.tagLookup && a.Header.tagLookup != b.Body.tagLookup && a.Header.tagLookup != b.Trailer.tagLookup && a.Body.tagLookup != b.Header.tagLookup && a.Body.tagLookup != b.Body.tagLookup && a.Body.tagLookup != b.Trailer.tagLookup && a.Trailer.tagLookup != b.Header.tagLookup && a.Trailer.tagLookup != b.Body.tagLookup && a.Trailer.tagLookup != b.Trailer.tagLookup && allocated(b.Header.tagLookup) && allocated(b.Body.tagLookup) && allocated(b.Trailer.tagLookup)
+// header tags fillDefaultHeader may set
+//@ spec defhdr(t Tag) bool = t == 8 || t == 49 || t == 50 || t == 142 || t == 56 || t == 57 || t == 143 || t == 52 || t == 369
+//@ func (s *session) fillDefaultHeader [C02,C10]
+//@   requires sessfull(s) && msgsafe(msg) && (inReplyTo != nil ==> msgok(inReplyTo) && msgsep(msg, inReplyTo))
+//@   ensures @wf msgsafe(msg)
+//@   ensures @set fhas(msg.Header.FieldMap, 8) && fhas(msg.Header.FieldMap, 49) && fhas(msg.Header.FieldMap, 56) && fhas(msg.Header.FieldMap, 52)
+//@   ensures @others forall t Tag :: !defhdr(t) ==> (fhas(msg.Header.FieldMap, t) <==> old(fhas(msg.Header.FieldMap, t))) && msg.Header.tagLookup[t] == old(msg.Header.tagLookup[t])
+//@   ensures @body forall t Tag :: (fhas(msg.Body.FieldMap, t) <==> old(fhas(msg.Body.FieldMap, t))) && msg.Body.tagLookup[t] == old(msg.Body.tagLookup[t])
+//@   ensures @store s.store.#S == old(s.store.#S) && s.store.#T == old(s.store.#T)
+//@   modifies msg.Header.tags, heap E.quickfix.Tag, msg.Header.tagLookup[*], heap H.quickfix.TagValue.*, fresh E.uint8, fresh H.quickfix.FIXUTCTimestamp.*, fresh H.time.Time.*, fresh H.quickfix.messageRejectError.*, fresh P.quickfix.Tag, fresh P.quickfix.FIXInt
+
+//@ func (s *session) persist [C02]
+//@   requires sessfull(s)
+//@   ensures @ok result == nil ==> s.store.#S == wrap64(old(s.store.#S) + 1)
+//@   ensures @fail result != nil ==> s.store.#S == old(s.store.#S)
+//@   ensures @target s.store.#T == old(s.store.#T)
+//@   modifies s.store.#S
+
+// prepMessageForSend: the message is given the next outbound number and that number is consumed exactly once
+//@ func (s *session) prepMessageForSend [C02,C07]
+//@   requires sessfull(s) && msgsafe(msg) && (inReplyTo != nil ==> msgok(inReplyTo) && msgsep(msg, inReplyTo))
+//@   ensures @wf msgsafe(msg) && sessfull(s)
+//@   ensures @number err == nil && !s.sentReset ==> s.store.#S == wrap64(old(s.store.#S) + 1) && s.store.#T == old(s.store.#T)
+//@   ensures @noreset !old(s.sentReset) && s.sentReset ==> err != nil || (s.store.#S == 2 && s.store.#T == 1)
+//@   ensures @state s.State == old(s.State) && s.toSend == old(s.toSend) && s.messageOut == old(s.messageOut)
+//@   modifies s.sentReset, s.store.#S, s.store.#T, msg.Header.tags, heap E.quickfix.Tag, msg.Header.tagLookup[*], msg.Body.tags, msg.Body.tagLookup[*], msg.Trailer.tags, msg.Trailer.tagLookup[*], heap H.quickfix.TagValue.*, fresh E.uint8, fresh H.quickfix.FIXUTCTimestamp.*, fresh H.time.Time.*, fresh H.quickfix.messageRejectError.*, fresh P.quickfix.Tag, fresh P.quickfix.FIXInt, fresh P.quickfix.FIXBoolean, fresh H.bytes.Buffer.*
+
+// ---- the send path ------------------------------------------------------------------------------------------
+// sendBytes is the only place that writes to the connection: never on a closed channel, never after disconnect
+//@ func (s *session) sendBytes [C08]
+//@   requires sessfull(s)
+//@   ensures @disconnected s.messageOut == nil ==> !result
+//@   ensures @count sent(s.messageOut) == old(sent(s.messageOut)) + (result ? 1 : 0)
+//@   modifies heap Gh.chan.sent
+
+//@ func (s *session) dropQueued [C02,C08]
+//@   requires s != nil
+//@   ensures len(s.toSend) == 0 && arr(s.toSend) == old(arr(s.toSend))
+//@   modifies s.toSend
+
+//@ func (s *session) notifyMessageOut [C02,C08]
+//@   requires s != nil && !closed(s.messageEvent) && s.messageEvent != s.messageOut
+//@   ensures @wire sent(s.messageOut) == old(sent(s.messageOut))
+//@   modifies heap Gh.chan.sent
+
+//@ func (s *session) sendQueued [C02,C08]
+//@   requires sessfull(s)
+//@   ensures @disconnected s.messageOut == old(s.messageOut) && s.State == old(s.State)
+//@   ensures @nowire s.messageOut == nil ==> sent(s.messageOut) == old(sent(s.messageOut))
+//@   ensures @bound sent(s.messageOut) <= old(sent(s.messageOut)) + old(len(s.toSend))
+//@   modifies s.toSend, heap Gh.chan.sent
+//@   loop 1 invariant sent(s.messageOut) <= old(sent(s.messageOut)) + $i + 1 && (s.messageOut == nil ==> sent(s.messageOut) == old(sent(s.messageOut)))
+//@   loop 1 modifies heap Gh.chan.sent
+//@   loop 1 decreases len(s.toSend) - $i
+
+//@ func (s *session) EnqueueBytesAndSend [C02,C03,C08]
+//@   requires sessfull(s)
+//@   ensures s.messageOut == old(s.messageOut) && s.State == old(s.State) && s.store.#S == old(s.store.#S) && s.store.#T == old(s.store.#T)
+//@   modifies s.toSend, s.toSend[*], fresh E.sl.uint8, heap Gh.chan.sent
+
+// every send entry point: one outbound number consumed per successful call, state and connection untouched
+//@ func (s *session) queueForSend [C02,C07,C08]
+//@   requires sessfull(s) && msgsafe(msg)
+//@   ensures @wf msgsafe(msg) && sessfull(s)
+//@   ensures @number result == nil && !s.sentReset ==> s.store.#S == wrap64(old(s.store.#S) + 1) && s.store.#T == old(s.store.#T)
+//@   ensures @state s.State == old(s.State) && s.messageOut == old(s.messageOut)
+//@   ensures @nowire sent(s.messageOut) == old(sent(s.messageOut))
+//@   modifies heap Gh.chan.sent, s.toSend, s.toSend[*], fresh E.sl.uint8, s.sentReset, s.store.#S, s.store.#T, msg.Header.tags, heap E.quickfix.Tag, msg.Header.tagLookup[*], msg.Body.tags, msg.Body.tagLookup[*], msg.Trailer.tags, msg.Trailer.tagLookup[*], heap H.quickfix.TagValue.*, fresh E.uint8, fresh H.quickfix.FIXUTCTimestamp.*, fresh H.time.Time.*, fresh H.quickfix.messageRejectError.*, fresh P.quickfix.Tag, fresh P.quickfix.FIXInt, fresh P.quickfix.FIXBoolean, fresh H.bytes.Buffer.*
+
+//@ func (s *session) sendInReplyTo [C02,C07,C08]
+//@   requires sessfull(s) && msgsafe(msg) && (inReplyTo != nil ==> msgok(inReplyTo) && msgsep(msg, inReplyTo))
+//@   ensures @wf msgsafe(msg) && sessfull(s)
+//@   ensures @number result == nil && !s.sentReset ==> s.store.#S == wrap64(old(s.store.#S) + 1) && s.store.#T == old(s.store.#T)
+//@   ensures @state s.State == old(s.State) && s.messageOut == old(s.messageOut)
+//@   ensures @nowire (stnotlogged(s.State) || s.messageOut == nil || result != nil) ==> sent(s.messageOut) == old(sent(s.messageOut))
+//@   modifies heap Gh.chan.sent, s.toSend, s.toSend[*], fresh E.sl.uint8, s.sentReset, s.store.#S, s.store.#T, msg.Header.tags, heap E.quickfix.Tag, msg.Header.tagLookup[*], msg.Body.tags, msg.Body.tagLookup[*], msg.Trailer.tags, msg.Trailer.tagLookup[*], heap H.quickfix.TagValue.*, fresh E.uint8, fresh H.quickfix.FIXUTCTimestamp.*, fresh H.time.Time.*, fresh H.quickfix.messageRejectError.*, fresh P.quickfix.Tag, fresh P.quickfix.FIXInt, fresh P.quickfix.FIXBoolean, fresh H.bytes.Buffer.*
+
+//@ func (s *session) send [C02,C07,C08]
+//@   requires sessfull(s) && msgsafe(msg)
+//@   ensures @wf msgsafe(msg) && sessfull(s)
+//@   ensures @number result == nil && !s.sentReset ==> s.store.#S == wrap64(old(s.store.#S) + 1) && s.store.#T == old(s.store.#T)
+//@   ensures @state s.State == old(s.State) && s.messageOut == old(s.messageOut)
+//@   ensures @nowire (stnotlogged(s.State) || s.messageOut == nil || result != nil) ==> sent(s.messageOut) == old(sent(s.messageOut))
+//@   modifies heap Gh.chan.sent, s.toSend, s.toSend[*], fresh E.sl.uint8, s.sentReset, s.store.#S, s.store.#T, msg.Header.tags, heap E.quickfix.Tag, msg.Header.tagLookup[*], msg.Body.tags, msg.Body.tagLookup[*], msg.Trailer.tags, msg.Trailer.tagLookup[*], heap H.quickfix.TagValue.*, fresh E.uint8, fresh H.quickfix.FIXUTCTimestamp.*, fresh H.time.Time.*, fresh H.quickfix.messageRejectError.*, fresh P.quickfix.Tag, fresh P.quickfix.FIXInt, fresh P.quickfix.FIXBoolean, fresh H.bytes.Buffer.*
+
+//@ func (s *session) dropAndSendInReplyTo [C02,C07,C08]
+//@   requires sessfull(s) && msgsafe(msg) && (inReplyTo != nil ==> msgok(inReplyTo) && msgsep(msg, inReplyTo))
+//@   ensures @wf msgsafe(msg) && sessfull(s)
+//@   ensures @number result == nil && !s.sentReset ==> s.store.#S == wrap64(old(s.store.#S) + 1) && s.store.#T == old(s.store.#T)
+//@   ensures @noreset !old(s.sentReset) && s.sentReset ==> result != nil || (s.store.#S == 2 && s.store.#T == 1)
+//@   ensures @state s.State == old(s.State) && s.messageOut == old(s.messageOut)
+//@   ensures @nowire (s.messageOut == nil || result != nil) ==> sent(s.messageOut) == old(sent(s.messageOut))
+//@   ensures @one sent(s.messageOut) <= old(sent(s.messageOut)) + 1
+//@   modifies heap Gh.chan.sent, s.toSend, s.toSend[*], fresh E.sl.uint8, s.sentReset, s.store.#S, s.store.#T, msg.Header.tags, heap E.quickfix.Tag, msg.Header.tagLookup[*], msg.Body.tags, msg.Body.tagLookup[*], msg.Trailer.tags, msg.Trailer.tagLookup[*], heap H.quickfix.TagValue.*, fresh E.uint8, fresh H.quickfix.FIXUTCTimestamp.*, fresh H.time.Time.*, fresh H.quickfix.messageRejectError.*, fresh P.quickfix.Tag, fresh P.quickfix.FIXInt, fresh P.quickfix.FIXBoolean, fresh H.bytes.Buffer.*
+
+//@ func (s *session) dropAndSend [C02,C07,C08]
+//@   requires sessfull(s) && msgsafe(msg)
+//@   ensures @wf msgsafe(msg) && sessfull(s)
+//@   ensures @number result == nil && !s.sentReset ==> s.store.#S == wrap64(old(s.store.#S) + 1) && s.store.#T == old(s.store.#T)
+//@   ensures @noreset !old(s.sentReset) && s.sentReset ==> result != nil || (s.store.#S == 2 && s.store.#T == 1)
+//@   ensures @state s.State == old(s.State) && s.messageOut == old(s.messageOut)
+//@   ensures @nowire (s.messageOut == nil || result != nil) ==> sent(s.messageOut) == old(sent(s.messageOut))
+//@   ensures @one sent(s.messageOut) <= old(sent(s.messageOut)) + 1
+//@   modifies heap Gh.chan.sent, s.toSend, s.toSend[*], fresh E.sl.uint8, s.sentReset, s.store.#S, s.store.#T, msg.Header.tags, heap E.quickfix.Tag, msg.Header.tagLookup[*], msg.Body.tags, msg.Body.tagLookup[*], msg.Trailer.tags, msg.Trailer.tagLookup[*], heap H.quickfix.TagValue.*, fresh E.uint8, fresh H.quickfix.FIXUTCTimestamp.*, fresh H.time.Time.*, fresh H.quickfix.messageRejectError.*, fresh P.quickfix.Tag, fresh P.quickfix.FIXInt, fresh P.quickfix.FIXBoolean, fresh H.bytes.Buffer.*
+
+// dropAndReset: on success both counters are 1 and nothing is queued
+//@ func (s *session) dropAndReset [C03,C07]
+//@   requires sessfull(s)
+//@   ensures @reset result == nil ==> s.store.#S == 1 && s.store.#T == 1
+//@   ensures @queue len(s.toSend) == 0
+//@   ensures @state s.State == old(s.State) && s.messageOut == old(s.messageOut) && sessfull(s)
+//@   modifies s.toSend, s.store.#S, s.store.#T
+
+// ---- the state interface: every implementation in the package is checked against these (closed world) ---------
+// pendingTimeout wraps another state and answers what the wrapped state answers: nothing is said about it here
+//@ spec stlogged(st sessionState) bool = st is inSession || st is resendState
+//@ spec stnotlogged(st sessionState) bool = st is logonState || st is logoutState || st is latentState || st is notSessionTime
+//@ spec stoff(st sessionState) bool = st is latentState || st is notSessionTime
+// a state value is well-formed: a pending-timeout wrapper holds one of the two logged-on states, never another wrapper
+//@ spec stok(st sessionState) bool = st != nil && (st is pendingTimeout ==> stlogged(unbox(st, pendingTimeout).sessionState))
+
+//@ iface sessionState.IsLoggedOn(recv) [C08]
+//@   requires stok(recv)
+//@   ensures @yes stlogged(recv) || recv is pendingTimeout ==> result
+//@   ensures @no stnotlogged(recv) ==> !result
+//@   pure
+//@   closedworld
+
+//@ iface sessionState.IsConnected(recv) [C08]
+//@   requires stok(recv)
+//@   ensures @yes stlogged(recv) || recv is pendingTimeout || recv is logonState || recv is logoutState ==> result
+//@   ensures @no stoff(recv) ==> !result
+//@   pure
+//@   closedworld
+
+//@ iface sessionState.IsSessionTime(recv) [C08]
+//@   requires stok(recv)
+//@   ensures @yes stlogged(recv) || recv is pendingTimeout || recv is logonState || recv is logoutState || recv is latentState ==> result
+//@   ensures @no recv is notSessionTime ==> !result
+//@   pure
+//@   closedworld
